@@ -546,8 +546,10 @@ def write_evidence(pid, cfg, tier, seed, t0, cov, violations):
         "coverage": cov, "assumptions": cfg["assumptions"], "wall_s": round(time.time() - t0, 2),
         "violations": violations,
     }
-    os.makedirs(os.path.join(VERIF, "evidence"), exist_ok=True)
-    with open(os.path.join(VERIF, "evidence", pid + ".json"), "w") as f:
+    # a run pointed at another tree (VERIF_REPO, mutation testing) must not overwrite the evidence of /repo
+    evdir = os.path.join(VERIF, "evidence") if os.path.abspath(REPO) == "/repo" else os.path.join(BUILD, "alt-evidence")
+    os.makedirs(evdir, exist_ok=True)
+    with open(os.path.join(evdir, pid + ".json"), "w") as f:
         json.dump(ev, f, indent=1, sort_keys=True)
         f.write("\n")
 
